@@ -3,6 +3,7 @@ package engine
 import (
 	"context"
 	"fmt"
+	"net/http"
 	"os"
 	"time"
 
@@ -12,6 +13,7 @@ import (
 	"github.com/mimiro-io/datahub/internal/conf"
 	"github.com/mimiro-io/datahub/internal/jobs"
 	"github.com/mimiro-io/datahub/internal/server"
+	"github.com/mimiro-io/datahub/internal/web"
 )
 
 const (
@@ -32,6 +34,24 @@ type World struct {
 	Gen int // incremented by every (re)open
 
 	sched *jobs.Scheduler
+	web   http.Handler
+}
+
+// Web returns the hub's HTTP router with all routes and middleware (security disabled: "noop").
+func (w *World) Web() (http.Handler, error) {
+	if w.web == nil {
+		env := *w.Env
+		env.Auth = &conf.AuthConfig{Middleware: "noop"}
+		ws, err := web.NewWebService(&web.ServiceContext{
+			Env: &env, Logger: env.Logger, Statsd: &statsd.NoOpClient{}, DatasetManager: w.Dsm, Store: w.Store,
+			EventBus: server.NoOpBus(), JobsScheduler: w.Sched(), Port: "0",
+		})
+		if err != nil {
+			return nil, err
+		}
+		w.web = ws.VerifHandler()
+	}
+	return w.web, nil
 }
 
 // Sched returns the hub's job scheduler (created on first use after every (re)open).
@@ -63,6 +83,7 @@ func OpenWorld(dir string) (*World, error) {
 
 func (w *World) open() error {
 	w.Gen++
+	w.web = nil
 	if w.sched != nil {
 		_ = w.sched.Stop(context.Background())
 		w.sched = nil
